@@ -15,12 +15,12 @@ use ec_core::{
     operator::{
         mutator::{DynMutator, Mutator},
         recombinator::{DynRecombinator, Recombinator},
-        selector::{best::Best, lexicase::Lexicase, random::Random, tournament::Tournament, DynSelector, Selector},
+        selector::{best::Best, dyn_weighted::DynWeightedError, lexicase::Lexicase, random::Random, tournament::Tournament, DynSelector, Selector},
         Composable, DynOperator, Operator,
     },
     test_results::{Error, TestResults},
 };
-use ec_linear::{mutator::{with_one_over_length::WithOneOverLength, with_rate::WithRate}, recombinator::{two_point_xo::TwoPointXo, uniform_xo::UniformXo}};
+use ec_linear::{mutator::{with_one_over_length::WithOneOverLength, with_rate::WithRate}, recombinator::{errors::{CrossoverGeneError, DifferentGenomeLength}, two_point_xo::TwoPointXo, uniform_xo::UniformXo}};
 use rand::{rngs::SmallRng, Rng, RngCore, SeedableRng};
 use serde_json::{json, Value};
 
@@ -338,6 +338,17 @@ fn show<T: std::fmt::Debug, E: std::fmt::Display>(r: Result<T, E>) -> String {
     }
 }
 
+/// ... with the diagnostic the error carries (help text, code): the repository's wrapper error
+/// types pass the wrapped error's text and diagnostic through unchanged
+fn show_diag<T: std::fmt::Debug, E: std::fmt::Display + miette::Diagnostic>(r: Result<T, E>) -> String {
+    match r {
+        Ok(v) => format!("Ok({v:?})"),
+        Err(e) => format!("Err({e}; help={:?}; code={:?})", e.help().map(|h| h.to_string()), e.code().map(|c| c.to_string())),
+    }
+}
+type DRx<'a> = dyn DynRecombinator<[Vec<bool>; 2], CrossoverGeneError<DifferentGenomeLength>, Output = Vec<bool>> + 'a;
+type DSw<'a> = dyn DynSelector<Pop, DynWeightedError> + 'a;
+
 /// an operator that doubles a number after drawing one word (concrete Operator<u64>)
 struct Doubler;
 impl Composable for Doubler {}
@@ -422,6 +433,28 @@ fn trace(args: &[String]) -> i32 {
         emit(&mut out, "recombinator", "failing/custom_error", all_forms!(s, Failing, [DRt<'_>], |w, rng| {
             show(Recombinator::recombine(&w, [genome(a, 8), genome(a, 9)], rng))
         }));
+        // the repository's own wrapper error types as the erased error type (its dedicated conversions):
+        // parents of different lengths, the longer one first or second
+        macro_rules! xo_repo_error {
+            ($imp:expr, $c:expr) => {
+                emit(&mut out, "recombinator", $imp, all_forms!(s, $c, [DRx<'_>], |w, rng| {
+                    let (x, y) = (genome(a, 8), genome(a + 1 + a % 3, 9));
+                    show_diag(Recombinator::recombine(&w, if a % 2 == 0 { [x, y] } else { [y, x] }, rng))
+                }))
+            };
+        }
+        xo_repo_error!("two_point/crossover_gene_error", TwoPointXo);
+        xo_repo_error!("uniform/crossover_gene_error", UniformXo);
+        macro_rules! sel_repo_error {
+            ($imp:expr, $c:expr) => {
+                emit(&mut out, "selector", $imp, all_forms!(s, $c, [DSw<'_>], |w, rng| {
+                    let pop = if a % 2 == 0 { Pop::new() } else { population(a) };
+                    show_diag(Selector::select(&w, &pop, rng).map(|i| pop.iter().position(|p| std::ptr::eq(p, i))))
+                }))
+            };
+        }
+        sel_repo_error!("best/dyn_weighted_error", Best);
+        sel_repo_error!("random/dyn_weighted_error", Random);
         macro_rules! operator {
             ($imp:expr, $c:expr) => {
                 emit(&mut out, "operator", $imp, all_forms!(s, $c, [DO<'_>, DOs<'_>, DOy<'_>, DOsy<'_>], |w, rng| {
